@@ -63,7 +63,7 @@ Lemma start_effect c s s' x :
       ss_eff c s s' true /\ (c_manual c = true -> ss_enabled s = true) /\
       (c_varmap c = true -> ch_map s <> 0) /\
       ch = current_channel c s' /\
-      ch_idx s' = (if c_varmap c then first_channel_index (ch_map s) else 37)
+      ch_idx s' = (if c_varmap c then first_channel_index (ch_map s) else 37) /\ d = 0
   end.
 Proof.
   unfold handle_start_advertising.
@@ -274,7 +274,7 @@ Proof.
     unfold core24. rewrite Hm, Hint, Hcc. refine (conj Cm (conj Clt (conj Ci (conj _ Cp)))).
     destruct (c_manual c) eqn:Man; auto. destruct Css as [Css1 Css2].
     destruct (budget_nosend _ _ _ _ _ Man Heff Css2) as [B1 B2]. split; auto.
-  - destruct H as (Heff & Hen & Hmz & Hch & Hidx).
+  - destruct H as (Heff & Hen & Hmz & Hch & Hidx & Hd0).
     assert (Hchan : chan_enabled (m_map m) ch = true /\ ch = lowest_channel (m_map m)).
     { rewrite Hch. unfold current_channel. rewrite Hidx. rewrite Cm in *. destruct (c_varmap c).
       - destruct (var_first (ch_map s)) as [V1 V2]; [lia|]. split; auto.
